@@ -92,7 +92,7 @@ def shard(binpath, seed, sh, n):
         if i % 3 == 0:
             # text-level variants around the document: each is judged on its own (one outcome over all channels)
             base = texts["plain"]
-            k = rng.randrange(21)
+            k = rng.randrange(23)
             tx, how = {
                 0: (base + "]", "trailing_bracket"), 1: (base + " x", "trailing_garbage"), 2: (base + base, "two_documents"),
                 3: (base + " \n\t\r\n", "trailing_whitespace"), 4: (base + ",", "trailing_comma"), 5: (base + "\x00", "trailing_nul"),
@@ -101,6 +101,7 @@ def shard(binpath, seed, sh, n):
                 12: dup_member(base, d, False), 13: dup_member(base, d, True),
                 17: non_ascii_id(base, rng, 63), 18: non_ascii_id(base, rng, 62),
                 19: two_spellings_of_a_member(base, rng), 20: two_spellings_of_a_member(base, rng),
+                21: long_list(base, d, rng), 22: long_list(base, d, rng),
                 14: extra_number_member(base, d, rng, False), 15: extra_number_member(base, d, rng, True), 16: extra_number_member(base, d, rng, False),
             }[k]
             groups.append([len(cases)])
@@ -151,6 +152,21 @@ def dup_member(base, d, escaped):
         if ord(k[0]) > 0xFFFF:
             name = json.dumps(k)
     return (base[:-1] + "," + name + ":" + json.dumps(d[k], ensure_ascii=False) + "}", "duplicate_member" + ("_escaped" if escaped else ""))
+
+
+def long_list(base, d, rng):
+    """one list of the document repeated until it has 129 / 300 / 1100 elements (a text parser does not know the length of a
+    list in advance, a tree does)"""
+    if not isinstance(d, dict):
+        return (base + " \n", "trailing_whitespace")
+    cands = [k for k, v in d.items() if isinstance(v, list) and v]
+    if not cands:
+        return (base + " \n", "trailing_whitespace")
+    k = "signatures" if "signatures" in cands else rng.choice(cands)
+    n = rng.choice([129, 300, 1100])
+    d2 = dict(d)
+    d2[k] = (d[k] * (n // len(d[k]) + 1))[:n]
+    return (json.dumps(d2, ensure_ascii=False), "list_with_more_than_128_elements")
 
 
 def two_spellings_of_a_member(base, rng):
